@@ -40,7 +40,17 @@ def _to_expr(t, memo):
         return ZeroOrMore(to_expr(t[1], memo))
     if op == "plus":
         return OneOrMore(to_expr(t[1], memo))
-    return ATOMS.get(op, op)
+    v = ATOMS.get(op, op)
+    # an atom given as a factory yields a FRESH (equal but distinct) object at every occurrence in the pattern
+    return v() if isinstance(v, AtomFactory) else v
+
+
+class AtomFactory:
+    def __init__(self, make):
+        self.make = make
+
+    def __call__(self):
+        return self.make()
 
 
 def real_seq(seq):
